@@ -27,8 +27,8 @@ ASSUMPTIONS = [
     "frequencies are compared exactly (count/n as Fraction against the decimal value of min_freq); with n <= 400 this agrees with the package's float comparisons",
     "a feature dropped by the discretizer (most frequent value rarer than min_freq) is not judged",
 ]
-BUDGET = {"quick": 3000, "thorough": 40000}
-DEADLINE_S = {"quick": 200, "thorough": 2400}
+BUDGET = {"quick": 3000, "thorough": 200000}
+DEADLINE_S = {"quick": 200, "thorough": 3300}
 CLASSES = (
     "Discretizer", "Discretizer", "QuantitativeDiscretizer", "QualitativeDiscretizer",
     "ContinuousDiscretizer", "OrdinalDiscretizer", "CategoricalDiscretizer",
